@@ -60,11 +60,40 @@ pub struct EP {
   pub id: i64,
 }
 
-pub fn err_id(e: &RxError) -> String {
-  match e.downcast_ref::<EP>() {
-    Some(p) => format!("{}", p.id),
-    None => "?".to_string(),
+/// error payloads of several TYPES, chosen by the injected id (C04: `downcast_ref` to the ORIGINAL type yields the
+/// original value): < 1000 the harness's own struct, 1000.. an `RxError` wrapping that struct (a nested error),
+/// 2000.. a `String`, 3000.. an `i64`
+pub fn mk_payload_err(id: i64) -> RxError {
+  match id {
+    1000..=1999 => RxError::from_error(RxError::from_error(EP { id })),
+    2000..=2999 => RxError::from_error(format!("payload-{}", id)),
+    3000..=3999 => RxError::from_error(id),
+    _ => RxError::from_error(EP { id }),
   }
+}
+
+pub fn err_id(e: &RxError) -> String {
+  use std::any::TypeId;
+  if let Some(p) = e.downcast_ref::<EP>() {
+    // the harness's struct directly: only ids below 1000 are injected this way
+    return if (p.id < 1000 || p.id >= 4000) && e.is::<EP>() && e.type_id() == TypeId::of::<EP>() { format!("{}", p.id) } else { "?".to_string() };
+  }
+  if let Some(inner) = e.downcast_ref::<RxError>() {
+    return match inner.downcast_ref::<EP>() {
+      Some(p) if (1000..2000).contains(&p.id) && e.is::<RxError>() && e.type_id() == TypeId::of::<RxError>() => format!("{}", p.id),
+      _ => "?".to_string(),
+    };
+  }
+  if let Some(t) = e.downcast_ref::<String>() {
+    return match t.strip_prefix("payload-").and_then(|x| x.parse::<i64>().ok()) {
+      Some(id) if (2000..3000).contains(&id) && e.is::<String>() => format!("{}", id),
+      _ => "?".to_string(),
+    };
+  }
+  if let Some(id) = e.downcast_ref::<i64>() {
+    return if (3000..4000).contains(id) && e.is::<i64>() { format!("{}", id) } else { "?".to_string() };
+  }
+  "?".to_string()
 }
 
 impl V {
